@@ -17,7 +17,9 @@ def _cond_sig(p):
     out = {}
     for c in p.conds:
         t = c[2]
-        if not t or "Val(" in t or "valuecall" in t or "run(" in t or "Opaque" in t or "exc-of" in t:
+        if not t or "valuecall" in t or "run(" in t or "Opaque" in t or "exc-of" in t:
+            continue
+        if "Val(" in t and not _constant_switch(t):
             continue
         pol = c[1]
         if t.startswith("unop:Not(") and t.endswith(")"):
@@ -41,6 +43,31 @@ def _cond_sig(p):
             else:
                 out.setdefault(t, pol)
     return out
+
+
+def _constant_switch(t: str) -> bool:
+    """The only evaluated values in the condition are those of constant nodes (module-level switches such as
+    Option('LABREA.EFFECTS.DISABLED', False)) that mention no child of the object: a function of the options alone,
+    the same in every sibling operation."""
+    import re
+    rest = t
+    for m in re.finditer(r"Val\(evaluate,New\(", t):
+        pass
+    if "Child(" in t or "Sym" in t:
+        return False
+    return all(seg.startswith("evaluate,New(Option;") for seg in t.split("Val(")[1:])
+
+
+_PURE_HEADS = ("call:isinstance(", "call:confectioner.templating.dotted_key_exists(", "call:callable(", "call:hasattr(", "call:len(", "call:bool(")
+
+
+def _about_object(t: str) -> bool:
+    """The condition speaks about the object's own fields, the operation's parameters and constants only — not about a
+    value computed on the way (a dictionary being filled, the result of a call)."""
+    rest = t
+    for h in _PURE_HEADS:
+        rest = rest.replace(h, "(")
+    return not any(x in rest for x in ("call:", "dict{}", "list[]", "Seq[", "new:", "callres(", "getitem(", "dict(", "binop:", "fstr("))
 
 
 def _compatible(a, b) -> bool:
@@ -198,6 +225,61 @@ def rule_VA(run: Run) -> RuleResult:
                     f"{cls.name}.evaluate path consults {sorted(need)}; " + ("some validate path covers them all" if okp else "no validate path covers them all"), nec)
         if not needed:
             res.add(f"{cls.qualname}:validate:no-children", True, f, ln, "no children", nec, trivial=True)
+    return res
+
+
+# ------------------------------------------------------------------ R-VO
+def rule_VO(run: Run) -> RuleResult:
+    """The converse of R-VA / R-XA: an inspection method consults a child only where evaluate() may."""
+    res = RuleResult("R-VO")
+    nec = ("a child that validate() or explain() consults in a situation in which evaluate() never does makes them stricter than "
+           "evaluation: validate(o) fails, or explain(o) lists an option as still to be supplied, although evaluate(o) succeeds without it "
+           "(C10, C11) — typically a flag or switch honoured by some of the sibling operations only")
+    for cls in run.node_classes():
+        epaths_all = run.paths(cls, "evaluate")
+        epaths = normal(epaths_all)
+        if not epaths:
+            continue
+        res.count("classes")
+        for op in ("validate", "explain"):
+            f, ln = _meth_loc(run, cls, op)
+            seen: Dict[str, Tuple[bool, str]] = {}
+            for p in normal(run.paths(cls, op)):
+                sp = _cond_sig(p)
+                for c in op_targets(p, op):
+                    if c == "<self>":
+                        continue
+                    ok, why = True, ""
+                    for q in epaths:
+                        if not _compatible(p, q):
+                            continue
+                        if c in op_targets(q, "evaluate") or c in op_targets(q, "transform") or c in op_targets(q, "validate"):
+                            continue
+                        # a returning evaluate path that does not consult c: is there a situation (its own comparable
+                        # conditions, added to those of p) in which no evaluate path consults c?
+                        # (facts about one element of a collection say nothing about the object as a whole)
+                        sq = {t: pol for t, pol in _cond_sig(q).items() if pol is not None and t not in sp and "elem(" not in t and "[*]" not in t
+                              and _about_object(t)}
+                        if not sq:
+                            continue
+
+                        both = dict(sp)
+                        both.update(sq)
+
+                        def compat_both(x, both=both):
+                            sx = _cond_sig(x)
+                            return all(not (t in sx and sx[t] is not None and pol is not None and sx[t] != pol) for t, pol in both.items())
+                        consulted = any(compat_both(x) and (c in op_targets(x, "evaluate", include_failed=True) or c in op_targets(x, "transform", include_failed=True)
+                                                            or c in op_targets(x, "validate", include_failed=True)) for x in epaths_all)
+                        if not consulted:
+                            ok = False
+                            why = "when " + " and ".join(f"{t[:70]} is {pol}" for t, pol in sorted(sq.items())) + f": {cls.name}.{op} consults '{c}', no evaluate path does"
+                            break
+                    prev = seen.get(c, (True, ""))
+                    seen[c] = (prev[0] and ok, prev[1] or why)
+            for c, (ok, why) in sorted(seen.items()):
+                res.add(f"{cls.qualname}:{op}:{c} consulted only where evaluate may", ok, f, ln,
+                        why or f"every situation in which {cls.name}.{op} consults '{c}' has an evaluate path that consults it too", nec)
     return res
 
 
